@@ -22,7 +22,7 @@ SYS_PREFIX = "/root/miniconda/include"   # gtest / boost headers used by the uni
 
 def base_flags(release=True):
     fl = ["-resource-dir", RESOURCE_DIR,
-          "-I" + REPO, "-I" + os.path.join(REPO, "test/include"),
+          "-I" + REPO, "-I" + os.path.join(REPO, "test/include"), "-I" + os.path.join(REPO, "test/stress"),
           "-I" + os.path.join(VERIF, "drivers"),
           "-isystem", SYS_PREFIX,
           "-std=gnu++11", "-mcx16",
@@ -44,8 +44,7 @@ def tree_hash():
     h = hashlib.sha1()
     roots = [os.path.join(REPO, d) for d in ("cds", "src", "test/include", "test/unit", "test/stress")]
     roots.append(os.path.join(VERIF, "drivers"))
-    roots.append(os.path.join(VERIF, "tools"))
-    files = []
+    files = [os.path.join(VERIF, "tools", "cdsfacts.cc")]
     for r in roots:
         for dp, dn, fn in os.walk(r):
             for f in fn:
@@ -102,23 +101,33 @@ class AnalysisBroken(Exception):
     pass
 
 
+def cache_dir():
+    """one sub-directory per tree state: a run never loses its files to a run on another state"""
+    return os.path.join(CACHE, tree_hash()[:16])
+
+
 def prune_cache(keep_hash):
-    """drop cached facts of other tree states (bounded disk use)"""
-    marker = os.path.join(CACHE, "TREE")
-    old = None
-    if os.path.exists(marker):
-        with open(marker) as f:
-            old = f.read().strip()
-    if old != keep_hash:
-        if os.path.isdir(CACHE):
-            for f in os.listdir(CACHE):
-                try:
-                    os.remove(os.path.join(CACHE, f))
-                except OSError:
-                    pass
-        os.makedirs(CACHE, exist_ok=True)
-        with open(marker, "w") as f:
-            f.write(keep_hash)
+    """drop cached facts of other tree states (bounded disk use); states touched in the last 20 minutes are left alone"""
+    os.makedirs(CACHE, exist_ok=True)
+    keep = keep_hash[:16]
+    now = time.time()
+    for d in os.listdir(CACHE):
+        p = os.path.join(CACHE, d)
+        if d == keep:
+            continue
+        try:
+            if os.path.isdir(p):
+                if now - os.path.getmtime(p) > 1200:
+                    shutil.rmtree(p, ignore_errors=True)
+            else:
+                os.remove(p)
+        except OSError:
+            pass
+    os.makedirs(os.path.join(CACHE, keep), exist_ok=True)
+    try:
+        os.utime(os.path.join(CACHE, keep), None)
+    except OSError:
+        pass
 
 
 def extract(tu_patterns, files_re, names_re=".", release=True, jobs=None, log=None, max_inst=0):
@@ -135,7 +144,7 @@ def extract(tu_patterns, files_re, names_re=".", release=True, jobs=None, log=No
     prune_cache(tree_hash())
     jobs = jobs or min(16, os.cpu_count() or 4)
     t0 = time.time()
-    work = [(tu, files_re, names_re, release, CACHE, max_inst) for tu in tus]
+    work = [(tu, files_re, names_re, release, cache_dir(), max_inst) for tu in tus]
     results = []
     with ThreadPoolExecutor(max_workers=jobs) as ex:
         for r in ex.map(_one, work):
